@@ -252,6 +252,77 @@ func TestC08(t *testing.T) {
 		if !sameOrdered(m, back) {
 			fail("case %d: ordered map differs after YAML encode+decode\n%s", i, yb)
 		}
+		// typed ordered maps (string values; shallow *yaml.Node values; slice values) through the same legs
+		ss := ordered.NewMap[string, string](0)
+		sl := ordered.NewMap[string, []any](0)
+		var tkeys []string
+		m.Range(func(k string, v any) error {
+			if k == "<<" {
+				return nil // the merge-key spelling is the separate finding above
+			}
+			tkeys = append(tkeys, k)
+			ss.Set(k, "v-"+k)
+			sl.Set(k, []any{k, "x"})
+			return nil
+		})
+		cases++
+		sameKeys := func(what string, got []string) {
+			if fmt.Sprintf("%q", got) != fmt.Sprintf("%q", tkeys) {
+				fail("case %d: %s: keys %q, want %q", i, what, got, tkeys)
+			}
+		}
+		if jb, err := json.Marshal(ss); err != nil {
+			fail("case %d: json.Marshal(Map[string,string]): %v", i, err)
+		} else {
+			back := ordered.NewMap[string, string](0)
+			if err := json.Unmarshal(jb, back); err != nil {
+				fail("case %d: json.Unmarshal(Map[string,string]): %v\n%s", i, err, jb)
+			} else if !ordered.Equal(ss, back) {
+				fail("case %d: Map[string,string] differs after JSON encode+decode\n%s", i, jb)
+			}
+		}
+		if yb, err := yaml.Marshal(ss); err != nil {
+			fail("case %d: yaml.Marshal(Map[string,string]): %v", i, err)
+		} else {
+			back := ordered.NewMap[string, string](0)
+			if err := yaml.Unmarshal(yb, back); err != nil {
+				fail("case %d: yaml.Unmarshal(Map[string,string]): %v\n%s", i, err, yb)
+			} else if !ordered.Equal(ss, back) {
+				fail("case %d: Map[string,string] differs after YAML encode+decode\n%s", i, yb)
+			}
+			shallow := ordered.NewMap[string, *yaml.Node](0)
+			if err := yaml.Unmarshal(yb, shallow); err != nil {
+				fail("case %d: yaml.Unmarshal(Map[string,*yaml.Node]): %v\n%s", i, err, yb)
+			} else {
+				var got []string
+				shallow.Range(func(k string, n *yaml.Node) error {
+					got = append(got, k)
+					if want, _ := ss.Get(k); n == nil || n.Value != want {
+						fail("case %d: shallow decode: value node of %q is %v, want %q", i, k, n, want)
+					}
+					return nil
+				})
+				sameKeys("shallow YAML decode", got)
+			}
+		}
+		if yb, err := yaml.Marshal(sl); err != nil {
+			fail("case %d: yaml.Marshal(Map[string,[]any]): %v", i, err)
+		} else {
+			back := ordered.NewMap[string, []any](0)
+			if err := yaml.Unmarshal(yb, back); err != nil {
+				fail("case %d: yaml.Unmarshal(Map[string,[]any]): %v\n%s", i, err, yb)
+			} else {
+				var got []string
+				back.Range(func(k string, v []any) error {
+					got = append(got, k)
+					if len(v) != 2 || v[0] != k || v[1] != "x" {
+						fail("case %d: Map[string,[]any][%q] = %v after YAML encode+decode", i, k, v)
+					}
+					return nil
+				})
+				sameKeys("Map[string,[]any] YAML decode", got)
+			}
+		}
 	}
 	if knownHits > 0 {
 		fmt.Printf("KNOWN-FINDING: property=C08 %s (%d generated maps skipped on the YAML leg)\n", knownWhat, knownHits)
